@@ -56,7 +56,15 @@ def cases(rng, tier, shard, nshards):
                     yield {"k": "lcg", "rt": rt, "o1": o1, "o2": o2, "a": a, "b": b}
                 j += 1
     yield {"k": "marker-exhaustive-done"}
+    from . import history as H
     while True:
+        if rng.random() < 0.3:
+            # arbitrary mutation histories (forward references, renames onto placeholders,
+            # removals with cascades, re-additions): the collections are judged after every step
+            c = H.gen_history(rng, nsteps=rng.randint(3, 12), failing=0.1, fanout=True, tags=False)
+            c["k"] = "history"
+            yield c
+            continue
         version = rng.choice(["gfa1", "gfa2"])
         if version == "gfa1":
             d = G.gen_gfa1(rng, nseg=rng.randint(1, 4), nlinks=rng.randint(2, 9), nconts=rng.randint(0, 3),
@@ -72,6 +80,17 @@ def cases(rng, tier, shard, nshards):
 
 def run(case, ctx):
     k = case["k"]
+    if k == "history":
+        from . import history as H
+
+        def judge(g, model, st):
+            ctx.count("checks_after_mutation")
+            return topo.check_neighbourhoods(ctx, g, model.text_lines(), case["version"])
+        shape = H.run_history(case, ctx, compare_every=False, after_step=judge)
+        ctx.count("histories")
+        if any(x.startswith("rename") or "cascade" in x for x in shape):
+            ctx.nontriv(case["steps"])
+        return
     if k == "marker-exhaustive-done":
         ctx.notes["exhaustive_stratum"] = "complete"
         ctx.count("exhaustive_strata_completed")
